@@ -3,7 +3,7 @@
 From Coq Require Import List String Bool Arith Permutation ZArith.
 From Thunder Require Import Lib.Json Gql.Types Gql.Value Gql.Query Gql.Ref Gql.Exec Gql.Check Gql.Envelope Gql.Socket
   Gql.ProofsSched Gql.ProofsErr Gql.ProofsRef Gql.ProofsMain Gql.ProofsEnt Gql.ProofsTop Gql.ProofsFail Gql.ProofsFailMain
-  Gql.ProofsSocket.
+  Gql.ProofsSocket Gql.Witness Gql.ProofsBatchFail.
 Import ListNotations.
 Open Scope string_scope.
 Open Scope list_scope.
@@ -26,10 +26,50 @@ Theorem failing_resolver_fails_query : forall S fuel rf q root sched,
 Proof. exact ProofsFailMain.failing_resolver_fails_query. Qed.
 Print Assumptions failing_resolver_fails_query.
 
+(** (i) with the path clause EXACT.  For every schema none of whose fields is run as a batch (plain,
+    Expensive, the fallback of a batch field, NumParallelInvocations: all allowed), every query, data and
+    schedule: the error Execute returns IS one of the needed failures - the same error value and the
+    same response path, aliases and list indices. *)
+Theorem failing_resolver_fails_query_exact : forall S fuel rf q root sched,
+  no_batch_fields S = true ->
+  needed_failures S fuel q root <> [] -> good (needed_failures S fuel q root) ->
+  (exists e, init fixed S q root = inr e /\ In e (needed_failures S fuel q root)) \/
+  (exists st0, init fixed S q root = inl st0 /\
+     (complete (run_sched fixed S fuel sched st0) = true ->
+      exists e, finish rf (run_sched fixed S fuel sched st0) = Some (RErr e) /\
+                In e (needed_failures S fuel q root))).
+Proof. exact ProofsFailMain.failing_resolver_fails_query_exact. Qed.
+Print Assumptions failing_resolver_fails_query_exact.
+
+(** A field run as a batch: its resolver returns one error for all of its sources, every destination
+    of the unit is failed with it, and the recorder keeps the first - the error is reported at the
+    unit's FIRST destination, whichever source the resolver stumbled over. *)
+Theorem whole_batch_failure_at_first_destination : forall S fuel u it0 rest e p,
+  f_batch (u_field u) && u_batch u = true ->
+  u_items u = it0 :: rest ->
+  first_failure (map (fun it : value * path => (outcome_of u (fst it), snd it)) (u_items u)) = Some (e, p) ->
+  exec_unit fixed S (Datatypes.S fuel) u = mk_xres [] [] (map (fun it : value * path => nest (snd it) e) (u_items u)) /\
+  record None (x_errs (exec_unit fixed S (Datatypes.S fuel) u)) = Some (nest (snd it0) e).
+Proof. exact ProofsBatchFail.whole_batch_failure_at_first_destination. Qed.
+Print Assumptions whole_batch_failure_at_first_destination.
+
+(** Hence the exact clause cannot hold of batch fields, and does not: `as { x }` over three objects, the
+    batch resolver of x failing at the second: Execute reports as.0.x, the failing source is as.1.x; with
+    x run one object at a time Execute reports as.1.x.  Replayed on the code by
+    corpus/C16/batch-failure-at-first-destination.json (the harness counts such reports). *)
+Theorem exact_path_refuted_for_whole_batch_failure :
+  exists ss,
+    parse [] bf_q = Some ss /\
+    needed_failures (bf_schema true) 40 ss bf_root = [nest [PKey "as"; PIdx 1; PKey "x"] (mk_err EPlain "boom")] /\
+    exec_fifo fixed (bf_schema true) [] bf_q bf_root = Some (RErr (nest [PKey "as"; PIdx 0; PKey "x"] (mk_err EPlain "boom"))) /\
+    exec_fifo fixed (bf_schema false) [] bf_q bf_root = Some (RErr (nest [PKey "as"; PIdx 1; PKey "x"] (mk_err EPlain "boom"))).
+Proof. exact ProofsBatchFail.exact_path_refuted_for_whole_batch_failure. Qed.
+Print Assumptions exact_path_refuted_for_whole_batch_failure.
+
 (** Behind it: a work unit, whatever its mode, raises only needed failures of its sources, and raises
     one whenever there is one. *)
-Theorem units_fail_like_reference : forall S fuel fr, GR S fuel fr /\ GU S fuel fr.
-Proof. exact ProofsFail.units_fail_like_reference. Qed.
+Theorem units_fail_like_reference : forall S fuel fr, GR false S fuel fr /\ GU false S fuel fr.
+Proof. exact ProofsFailMain.units_fail_like_reference_sim. Qed.
 Print Assumptions units_fail_like_reference.
 
 (** (ii), in full: if no needed resolver fails (the reference evaluation raises nothing), every
@@ -207,6 +247,20 @@ Example failing_hypotheses_satisfiable :
 Proof.
   split; [vm_compute; reflexivity|]. vm_compute. intros f [<-|[<-|[<-|[]]]]; reflexivity.
 Qed.
+
+(** The exact theorem's premise holds of a schema with an Expensive field, a fallback field that is not
+    batched and a split one, with two failures needed. *)
+Definition ex16_schema_nb : schema :=
+  mk_schema
+    [mk_object "Query" [mk_field "as" (TList (TObject "A")) false false true false None] None;
+     mk_object "A" [mk_field "x" (TScalar "int64") true false true false (Some [2; 2; 2; 2]);
+                    mk_field "y" (TScalar "int64") false true true false None] None]
+    [] "Query".
+Example exact_hypotheses_satisfiable :
+  no_batch_fields ex16_schema_nb = true /\
+  List.length (needed_failures ex16_schema_nb 10 ex16_q ex16_root) = 3 /\
+  no_batch_fields ex16_schema = false.
+Proof. repeat split; vm_compute; reflexivity. Qed.
 
 Example hypotheses_satisfiable :
   sanitize (nest [PKey "a"; PIdx 1] (mk_err EPlain "secret")) = "Internal server error" /\
